@@ -232,6 +232,9 @@ class Interp(Engine):
         if isinstance(kb, KOpt):
             b = self.coerce(st, b, kb.inner, node)
             kb = b.kind
+        if ka is KVal and kb is KVal:
+            a, b = self.coerce(st, a, KFloat, node), self.coerce(st, b, KFloat, node)
+            ka, kb = KFloat, KFloat
         if ka is KVal and kb is not KVal:
             a = self.coerce(st, a, KFloat if kb is KFloat else kb, node)
             ka = a.kind
@@ -365,8 +368,12 @@ class Interp(Engine):
             try:
                 sa = inspect.getattr_static(cls, attr)
             except AttributeError:
-                raise Unsupported("no attribute %s.%s (no schema field, no class attribute; line %s)"
-                                  % (k.cls, attr, getattr(node, "lineno", "?")))
+                # an instance attribute outside the schema (e.g. a subclass field read through a base-class
+                # reference): an opaque, per-object dynamic value (reads only)
+                from . import lib
+                lib.USED.add("opaque-attribute:%s.%s" % (k.cls, attr))
+                t = uf("attr_" + attr, z3.IntSort(), val_sort())(v.term)
+                return SV(KVal, t)
             if isinstance(sa, property):
                 return self.call_function(st, sa.fget, [v], {}, node)
             if isinstance(sa, staticmethod):
